@@ -7,5 +7,6 @@ CONSTANTS
   LatchChecked = TRUE
   CloseLatches = TRUE
   TimeoutReleases = FALSE
+  HandlerControlPath = TRUE
 POSTCONDITION Accepted
 CHECK_DEADLOCK FALSE
